@@ -90,6 +90,15 @@ XtsDec(T, c, k1, k2, tweak, ct) ==
                 cc == Drop(ct, 16 * n) \o Drop(pp, r)
             IN head \o XtsBlockDec(T, c, k1, MulXn(t0, n - 1), cc) \o Take(pp, r)
 
+(* the streaming XTS interface: consecutive data units of `unit` bytes, the tweak being a little-endian counter of units *)
+Rev(s) == [i \in 1..Len(s) |-> s[Len(s) + 1 - i]]
+TweakAdd(iv, n) == Rev(AddBE(Rev(iv), n))
+XtsUnits(T, c, k1, k2, iv, unit, m, enc) ==
+    IF Len(m) % unit # 0 THEN [ok |-> FALSE, out |-> <<>>]
+    ELSE [ok |-> TRUE, out |-> Concat([j \in 1..(Len(m) \div unit) |->
+              LET u == SubSeq(m, unit * (j - 1) + 1, unit * j) IN
+              IF enc THEN XtsEnc(T, c, k1, k2, TweakAdd(iv, j - 1), u) ELSE XtsDec(T, c, k1, k2, TweakAdd(iv, j - 1), u)])]
+
 (* ------------------------------ CBC-MAC (zero IV, zero padding of the last block, as sm4_cbc_mac) ------------------------------ *)
 CbcMac(T, c, k, m) == LET p == m \o Zeros((16 - (Len(m) % 16)) % 16)
                       IN IF Len(m) = 0 THEN Zeros(16)
